@@ -177,6 +177,17 @@ def check_private_predicate(ctx, rule, enum):
            where=f.span, detail={"body": show(rt2)})
 
 
+def _is_narrowed(t):
+    """the i64 obtained from the Integer payload of the input by the checked conversion: `i.try_into()?` or the Ok payload
+    of `i.try_into().map_err(..)`"""
+    x = None
+    if t[0] == "tryok":
+        x = t[1]
+    elif t[0] == "field" and t[2] == "0" and t[1][0] == "variant" and t[1][2] == "Ok":
+        x = t[1][1]
+    return x is not None and is_call(x, "core::convert::TryInto::try_into") and x[2][0] == ("field", ("variant", ("param", 0), "Integer"), "0")
+
+
 def _classify(ctx, key, private):
     prog = ctx.prog
     f = prog.fn(key)
@@ -208,12 +219,11 @@ def _classify(ctx, key, private):
                       and is_call(payload[1][1], "iana::EnumI64::from_i64"))
                 if ok:
                     arg = payload[1][1][2][0]
-                    ok = arg[0] == "tryok" and is_call(arg[1], "core::convert::TryInto::try_into") \
-                        and arg[1][2][0] == ("field", ("variant", ("param", 0), "Integer"), "0")
+                    ok = _is_narrowed(arg)
                     narrowed = arg
                 seen["Assigned"] = ok
             elif v == "PrivateUse":
-                ok = private and payload[0] == "tryok" and is_call(payload[1], "core::convert::TryInto::try_into")
+                ok = private and _is_narrowed(payload)
                 # guarded by from_i64 == None and is_private(i) == true
                 g_none = g_priv = False
                 for c in conds:
@@ -241,8 +251,14 @@ def _classify(ctx, key, private):
         if n != 1:
             problems.append("%d different paths produce Ok(%s): the classification is not a single chain" % (n, v))
     want_err = ["UnregisteredIanaNonPrivateValue"] if private else ["UnregisteredIanaValue"]
+    errs = list(seen.get("errs", []))
+    nprop = len(seen.get("propagates", []))
+    if "OutOfRangeIntegerValue" in errs and nprop == 0:
+        # the range error of the checked conversion written out (`map_err(|_| OutOfRangeIntegerValue)`) instead of `?` + From
+        errs.remove("OutOfRangeIntegerValue")
+        nprop = 1
     ok = (not problems and seen.get("Assigned") and seen.get("Text") and seen.get("type_error")
-          and seen.get("errs") == want_err and len(seen.get("propagates", [])) == 1
+          and errs == want_err and nprop == 1
           and (seen.get("PrivateUse") if private else "PrivateUse" not in seen))
     ctx.ob("R-4", "classification:%s" % ("with-private" if private else "registered"), bool(ok),
            "label decoding: Integer -> checked i64 -> from_i64 Some => Assigned; None => %s; Text kept; other => type error" % (
